@@ -12,7 +12,7 @@
    equivalence on graphs with cycles (where it is refuted, witnesses 2); there the verdict under each explicit
    start order is compared with well-foundedness computed on the model (run/lib/graphspec.well_founded). *)
 From Verif Require Import Base.Str Base.Outcome Model.Ast Model.Printer Model.WGraph Model.WWeights
-  Spec.GraphWeights Proofs.WeightsProofs Proofs.Witnesses Proofs.GraphPrims Proofs.DagWeights Proofs.DagCheck.
+  Spec.GraphWeights Proofs.WeightsProofs Proofs.Witnesses Proofs.GraphPrims Proofs.DagWeights Proofs.DagCheck Proofs.BuilderFresh Proofs.DagModel.
 
 (* 1. a relation defined as itself (`define a: a`): the computed self edge is a model cycle, for every graph,
       path and fuel — it is never resolved as a tuple cycle (repair F9) *)
@@ -60,3 +60,9 @@ Theorem C05_acyclic_domain_inhabited :
   match wbuild m_good with Ok g => fuel_check g && forallb (spec_accepts g) (default_order g) | _ => false end = true /\
   is_ok (build_weighted None m_good) = true.
 Proof. split; [apply m_good_in_domain|]. split; [exact m_good_accepted_by_spec|apply m_good_in_domain]. Qed.
+
+(* 6. for graphs the builder made *)
+Theorem C05_built_graph_accepted_iff : forall m g, wbuild m = Ok g -> acyclic_check g = true ->
+  forall o, fuel_check g = true ->
+  (is_ok (build_weighted o m) = true <-> forallb (spec_accepts g) (order_used o g) = true).
+Proof. exact built_accepted_iff. Qed.
